@@ -34,6 +34,11 @@ var solvers = []solverSpec{
 		return []string{"z3-new", "smt.mbqi=false", "auto_config=false", fmt.Sprintf("-T:%d", t), f}
 	}},
 	{"z3-new-mbqi", func(f string, t int) []string { return []string{"z3-new", fmt.Sprintf("-T:%d", t), f} }},
+	// shallow instantiation: cuts matching loops (forall-exists postconditions of permuting
+	// callees when old and new arrays coincide) that drown the default thresholds
+	{"z3-new-shallow", func(f string, t int) []string {
+		return []string{"z3-new", "smt.mbqi=false", "auto_config=false", "smt.qi.eager_threshold=4", "smt.qi.lazy_threshold=6", fmt.Sprintf("-T:%d", t), f}
+	}},
 	{"z3-new-s1", func(f string, t int) []string {
 		return []string{"z3-new", "smt.mbqi=false", "auto_config=false", "smt.random_seed=1", "sat.random_seed=1", fmt.Sprintf("-T:%d", t), f}
 	}},
@@ -173,7 +178,7 @@ func solveOne(e *Enc, o *Obl, opts solveOpts, idx int) *SolveResult {
 		}
 	}
 	// stage 1: the two z3-new configurations (E-matching only / default) with a short budget
-	race(solvers[:2], quick)
+	race(solvers[:3], quick)
 	if res.Solver == "" {
 		// stage 2: everything with the full budget
 		race(solvers, opts.timeoutS)
